@@ -17,14 +17,17 @@ def main():
            'Produced by `tools/mutation_audit.py --all` (quick tier, VERIF_SEED=1): each change is applied to a scratch clone '
            'of /repo and the quick check of the property it targets is run against it; "caught" = exit 1 with a VIOLATION '
            'line. Seeded changes were written by independent sub-agents that saw only the property text; own mutants are '
-           'one edit per "must catch" bullet of DESIGN.md section 3.', '',
+           'one edit per "must catch" bullet of DESIGN.md section 3 (plus a few added from the generic mutation sample). '
+           'Audits skip the variant run once the main run has failed. ' + (sys.argv[2] if len(sys.argv) > 2 else ''), '',
            '## Seeded changes (independent sub-agents, all confirmed with their own demonstration)', '',
-           '| change | check | result | what it breaks / what it needs |', '|---|---|---|---|']
+           '| change | round | check | result | what it breaks / what it needs |', '|---|---|---|---|---|']
     for meta in sorted(glob.glob(os.path.join(HERE, 'seeded', '*', 'meta.json'))):
         name = os.path.basename(os.path.dirname(meta))
         m = json.load(open(meta))
         need = str(m.get('needs_to_manifest', ''))[:220].replace('|', '/').replace('\n', ' ')
-        out.append(f'| {name} | {m["property"]} | {verdict.get(name, "not run")} | {need} |')
+        rnd = (int(name.split('-m')[1]) + 1) // 2
+        prop = m['property'] + (f' (submitted for {m["submitted_for"]})' if m.get('submitted_for') else '')
+        out.append(f'| {name} | {rnd} | {prop} | {verdict.get(name, "not run")} | {need} |')
     out += ['', '## Own mutants', '', '| mutant | check | result |', '|---|---|---|']
     for p in sorted(glob.glob(os.path.join(HERE, 'mutants', '*.patch'))):
         name = os.path.basename(p)
